@@ -540,13 +540,26 @@ class Node(
             self._on_cache_miss()
 
         result = super()._before_run(check_readiness=check_readiness)
-        if self.use_cache:  # Write cache and continue
-            # Only once the run is admitted -- a refused run must not vouch for outputs
-            self._write_cache()
+        # The run is admitted, so the outputs are in flux from here on: nothing vouches
+        # for them until the result of this very run has been processed (`_run`
+        # snapshots the input, `_run_succeeded` records it)
+        self._cached_inputs = None
         return result
 
-    def _write_cache(self) -> None:
-        self._cached_inputs = self.inputs.to_value_dict()
+    def _cache_snapshot(self) -> dict[str, Any]:
+        """What the outputs of a run started now are a function of."""
+        return {"inputs": self.inputs.to_value_dict()}
+
+    def _write_cache(self, snapshot: dict[str, Any]) -> None:
+        self._cached_inputs = snapshot["inputs"]
+
+    def _run_succeeded(self, /, cache: dict[str, Any] | None = None):
+        super()._run_succeeded()
+        if cache is not None:
+            # Only now do the outputs belong to the input the run was admitted with --
+            # a job that is lost, cancelled, interrupted, or overtaken by a manual
+            # reset never gets here
+            self._write_cache(cache)
 
     def __getstate__(self):
         state = super().__getstate__()
@@ -577,6 +590,8 @@ class Node(
     ) -> Any | tuple | Future:
         if self.parent is not None and self.parent.running:
             self.parent.register_child_starting(self)
+        if self.use_cache:
+            finish_run_kwargs = {**finish_run_kwargs, "cache": self._cache_snapshot()}
         return super()._run(
             executor=executor,
             raise_run_exceptions=raise_run_exceptions,
